@@ -160,6 +160,8 @@ class Sim:
         self.busy = []
         self.reply_times = []
         self.ra = None
+        self.ra_for = None
+        self.wrapper = None
         self.res = None
         self.seq = None
         self.other_seq = 10 ** 6
@@ -272,12 +274,21 @@ class Sim:
             self.timed = rpyc.timed(self.proxy, parse_tau(tok[1:]))
             self.res = self.timed()
             out = "-"
+        elif c == "W":
+            import rpyc
+            if self.proxy is None:
+                self.proxy = self.conn._unbox((self.consts.LABEL_REMOTE_REF, ("builtins.function", 11, 12)))
+            self.wrapper = rpyc.timed(self.proxy, parse_tau(tok[1:]))      # made now, called later (K), maybe repeatedly
+            out = "-"
+        elif c == "K":
+            self.res = self.wrapper()
+            out = "-"
         else:
             raise ValueError("bad token %r" % tok)
         res = self.res
         self.chan.idle_polls = 0
-        if self.ra is None and res._is_ready and self.reply_times:
-            self.ra = self.reply_times[-1]
+        if res._is_ready and self.ra_for is not res and self.reply_times:
+            self.ra, self.ra_for = self.reply_times[-1], res
         return "%s@%s" % (out, fmt_t(self.clock.now))
 
     def state(self):
@@ -296,11 +307,12 @@ class Sim:
     def snapshot(self):
         r = self.res
         return (self.clock.now, list(self.chan.queue), r._is_ready, r._is_exc, r._obj, list(r._callbacks), r._ttl,
-                dict(self.conn._request_callbacks), len(self.cblog), len(self.busy), len(self.reply_times), self.ra)
+                dict(self.conn._request_callbacks), len(self.cblog), len(self.busy), len(self.reply_times), self.ra,
+                self.ra_for)
 
     def restore(self, s):
         r = self.res
-        (self.clock.now, q, r._is_ready, r._is_exc, r._obj, cbs, r._ttl, rc, n1, n2, n3, self.ra) = s
+        (self.clock.now, q, r._is_ready, r._is_exc, r._obj, cbs, r._ttl, rc, n1, n2, n3, self.ra, self.ra_for) = s
         self.chan.queue[:] = q
         r._callbacks[:] = cbs
         self.conn._request_callbacks.clear()
@@ -388,6 +400,47 @@ def symbols_rep(variant):
     return [(s, 3 if s != "C" else 3) for s, _m in symbols_for(variant)]
 
 
+# ------------------------------------------------------------------------------------------ requests issued late / repeatedly
+def reuse_sequences():
+    """A `timed(f, tau)` wrapper made at t0 and first called, then called again, some time later; async_request(timeout=)
+    issued repeatedly; sync_request with a configured timeout on a connection older than the timeout.  Delay before the
+    first call in {0, <tau, =tau, >tau}; each call's reply becomes readable before / at / after that call's own deadline
+    (call instant + tau) or never; 2-3 calls."""
+    out = []
+    for tau in TIMEOUTS:
+        t = tau if tau is not None and tau > 0 else 3
+        delays = sorted(set([0, max(t - 1, 1), t, t + 2]))
+        replies = [None, 0, max(t - 1, 1), t, t + 1]
+        for kind in "KQY":
+            for d0 in delays:
+                for r1 in replies:
+                    for gap in (0, t, t + 3):
+                        for r2 in replies:
+                            calls = [(d0, r1), (gap, r2)]
+                            out.append(reuse_tokens(kind, tau, calls))
+                            if r2 in (None, t + 1) and gap == t:
+                                out.append(reuse_tokens(kind, tau, calls + [(1, 0)]))
+                                out.append(reuse_tokens(kind, tau, calls + [(t + 1, t - 1)], callbacks=True))
+    return out
+
+
+def reuse_tokens(kind, tau, calls, callbacks=False):
+    toks = ["W" + tau_tok(tau)] if kind == "K" else []
+    for n, (before, reply) in enumerate(calls):
+        if before:
+            toks.append("T%d" % before)
+        send = [] if reply is None else ["S%d:R%s%d" % (reply, "T" if n == 1 else "F", 7 + n)]
+        if kind == "Y":
+            toks += send + ["Y" + tau_tok(tau)]
+        else:
+            toks += ["K" if kind == "K" else "Q" + tau_tok(tau)] + send
+            if callbacks:
+                toks.append("C%d" % (n + 1))
+            toks += ["x", "v"] if n % 2 == 0 else ["w", "r", "e"]
+        toks.append("x" if kind != "Y" else "V")
+    return toks
+
+
 # ------------------------------------------------------------------------------------------ seeded sequences
 def gen_sequence(r, n):
     toks = []
@@ -399,8 +452,13 @@ def gen_sequence(r, n):
             [gen_tok(r) for _ in range(r.below(4))]
     if k <= 3:
         toks.append("X" + tau_tok(tau))
+    have_w = False
     for _ in range(n):
         toks.append(gen_tok(r))
+        if toks[-1][0] == "W":
+            have_w = True
+        elif have_w and r.chance(1, 4):
+            toks.append("K")
     return toks
 
 
@@ -411,7 +469,9 @@ def gen_msg(r):
 
 
 def gen_tok(r):
-    k = r.below(20)
+    k = r.below(21)
+    if k == 20:
+        return r.choice(["Q", "Y", "Q", "W"]) + tau_tok(r.choice(TIMEOUTS + [2, 4]))
     if k < 3:
         return "S%d:%s" % (r.choice([0, 0, 1, 1, 2, 3, 4, 5, 8]), gen_msg(r))
     if k < 5:
@@ -551,6 +611,117 @@ def run_scenario_simnet(kind, tau, pre, k, post, ops):
     return out
 
 
+def reuse_scenarios():
+    """whole-connection runs of requests issued late / repeatedly: a timed() wrapper made at t0 and called twice after
+    delays, async_request(timeout=) twice, sync_request on a connection older than its timeout.  steps:
+    ("W", tau) | ("T", n) | ("K", r) | ("Q", tau, r) | ("Y", tau, r) | ("v",) | ("x",) | ("V",); r = the server's working
+    time.  After a call that timed out the client sleeps past the late reply and serves it (it belongs to the old
+    request) before issuing the next one."""
+    out = []
+    for tau in (1, 3):
+        for kind in "KQY":
+            for d0 in sorted(set([0, tau - 1, tau, tau + 2])):
+                for r1 in sorted(set([0, tau - 1, tau + 1])):
+                    for gap in (1, tau + 1):
+                        for r2 in (0, tau + 1):
+                            steps = [("W", tau)] if kind == "K" else []
+                            for before, r in ((d0, r1), (gap, r2)):
+                                if before:
+                                    steps.append(("T", before))
+                                steps.append(("K", r) if kind == "K" else (kind, tau, r))
+                                if kind != "Y":
+                                    steps += [("x",), ("v",)]
+                                if r > tau:
+                                    steps += [("T", r - tau + 1), ("V",)]
+                            out.append(steps)
+    return out
+
+
+def reuse_tokens_of(steps):
+    """model tokens, and for each token whether the network run observes it"""
+    toks, seen = [], []
+    for st in steps:
+        if st[0] == "W":
+            toks.append("W" + tau_tok(st[1])); seen.append(True)
+        elif st[0] == "T":
+            toks.append("T%d" % st[1]); seen.append(True)
+        elif st[0] == "K":
+            toks += ["K", "S%d:RF42" % st[1]]; seen += [True, False]
+        elif st[0] == "Q":
+            toks += ["Q" + tau_tok(st[1]), "S%d:RF42" % st[2]]; seen += [True, False]
+        elif st[0] == "Y":
+            toks += ["S%d:RF42" % st[2], "Y" + tau_tok(st[1])]; seen += [False, True]
+        else:
+            toks.append(st[0]); seen.append(True)
+    return toks, seen
+
+
+def run_reuse_simnet(steps):
+    import rpyc
+    import rpyc.lib
+    import simnet
+    from rpyc.core import consts
+    from rpyc.core.async_ import AsyncResultTimeout
+    net = simnet.Net()
+
+    class Srv(rpyc.Service):
+        def exposed_work(self, pre):
+            rpyc.lib.time.sleep(pre)
+            return 42
+
+    out = []
+    with net.installed():
+        ca, _cb = net.connect_pair(rpyc.VoidService(), Srv(), {}, {})
+        spin = {"t": None, "n": 0}
+
+        def watch(op, _stream, _arg):
+            if op == "poll":
+                if net.clock.now == spin["t"]:
+                    spin["n"] += 1
+                    if spin["n"] > 500:
+                        spin["n"] = 0
+                        raise Spin()
+                else:
+                    spin["t"], spin["n"] = net.clock.now, 0
+        ca._channel.stream.fault = watch
+        try:
+            work = ca.root.work
+            t0 = net.clock.now
+            res = tw = None
+
+            def guarded(fn):
+                try:
+                    return fn()
+                except AsyncResultTimeout:
+                    return "TO"
+                except Spin:
+                    return "SPIN"
+            for st in steps:
+                k = st[0]
+                if k == "W":
+                    tw = rpyc.timed(work, st[1]); o = "-"
+                elif k == "T":
+                    rpyc.lib.time.sleep(st[1]); o = "-"
+                elif k == "K":
+                    res = tw(st[1]); o = "-"
+                elif k == "Q":
+                    res = ca.async_request(consts.HANDLE_CALL, work, (st[2],), (), timeout=st[1]); o = "-"
+                elif k == "Y":
+                    ca._config["sync_request_timeout"] = st[1]
+                    o = guarded(lambda: "val:%s" % work(st[2]))
+                    ca._config["sync_request_timeout"] = 30
+                elif k == "v":
+                    o = guarded(lambda: "val:%s" % res.value)
+                elif k == "x":
+                    o = tri(res.expired)
+                elif k == "V":
+                    guarded(lambda: ca.serve(0)); o = "-"
+                out.append("%s@%s" % (o, fmt_t(net.clock.now - t0)))
+        finally:
+            net.shutdown([ca])
+    return out
+
+
 def model_view_of_scenario(line, kind, n_sends):
     """cut the driver's line down to what the network run observes: the tokens after the sends, and the callback log"""
     parts = line.split(" st ")[0].split(" ")
@@ -574,7 +745,10 @@ def correspondence(ctx):
               "{reply, tick 1, tick 5, add callback x2, ready, error, expired, value, wait} of the stated length "
               "(each at most once; callbacks numbered by registration), ALL sequences with up to 3 repetitions of "
               "length <= 3, plus seeded sequences of length <= 14 with delayed replies, busy unrelated requests, "
-              "re-arming, duplicate replies, serve(0), sync_request/timed/async_request(timeout=); whole-connection "
+              "re-arming, duplicate replies, serve(0), sync_request/timed/async_request(timeout=); a grid of requests "
+              "issued late or repeatedly (a timed() wrapper made at t0 and called 2-3 times after delays 0/<tau/=tau/>tau, "
+              "async_request(timeout=) repeated, sync_request on a connection older than its timeout; each reply before / "
+              "at / after that call's own deadline); whole-connection "
               "scenarios over the deterministic network. Non-trivial = the sequence contains a reply or an expiry "
               "and at least one query/wait; distinct = distinct full observation trace (results, instants, final slots, "
               "callback log).")
@@ -656,6 +830,11 @@ def correspondence(ctx):
                     flush(True)
             flush(True)
         ctx.log("enumeration: %d sequences on the real code and the model in %.1fs" % (n_enum, _walltime.time() - t_start))
+        for toks in reuse_sequences():
+            add(0, toks, run_impl(0, toks))
+            c.count("reused-wrapper/late-request:" + ("timed" if toks[0][0] == "W" else "sync" if any(
+                t[0] == "Y" for t in toks) else "async_request"))
+        flush(False)
         n_seeded = ctx.budget(20000, 400000)
         for i in range(n_seeded):
             toks = gen_sequence(r, r.range(1, 14))
@@ -674,6 +853,10 @@ def correspondence(ctx):
             scen_impl.append(run_scenario_simnet(kind, tau, pre, k, post, ops))
             c.count("simnet:" + kind)
         outs = run_driver(scen_lines, exe="drv_async")
+        reuse = reuse_scenarios()
+        reuse_toks = [reuse_tokens_of(st) for st in reuse]
+        reuse_impl = [run_reuse_simnet(st) for st in reuse]
+        reuse_outs = run_driver(["async run 0 " + " ".join(t) for t, _seen in reuse_toks], exe="drv_async")
     except DriverError as ex:
         c.error = str(ex)
         return c
@@ -688,6 +871,18 @@ def correspondence(ctx):
             c.signatures.add("simnet " + " ".join(want) + repr(sc[:2]))
             if len(c.samples) < 16 and sc[3] is not None and sc[1] == 3:
                 c.samples.append(dict(case="simnet %r" % (sc,), outcome=" ".join(want)))
+    for steps, (toks, seen), want, got in zip(reuse, reuse_toks, reuse_impl, reuse_outs):
+        c.evaluations += 1
+        c.count("simnet:late-or-repeated-" + ("timed" if steps[0][0] == "W" else "sync" if any(
+            st[0] == "Y" for st in steps) else "async_request"))
+        view = [o for o, keep in zip(got.split(" st ")[0].split(" "), seen) if keep]
+        if view != want:
+            c.disagreements.append(dict(case="simnet-reuse %r = %s" % (steps, " ".join(toks)), impl=" ".join(want),
+                                        model=" ".join(view)))
+        else:
+            c.signatures.add("simnet-reuse " + " ".join(want))
+            if len(c.samples) < 18 and steps[0] == ("W", 3) and ("T", 5) in steps[:2]:
+                c.samples.append(dict(case="simnet %r" % (steps,), outcome=" ".join(want)))
     for k, v in kinds.items():
         c.count("observation:" + k, v)
     c.extra["exhaustive_orders"] = ("all orders of the 9-symbol multiset of length %d (reply dispatched now) / %d (reply put "
@@ -710,18 +905,23 @@ def oracle_sequence(t0, toks):
         registered = []            # (cid, instant registered)
         arrival_at = None
         first_reply_seen = False   # a request has one reply (C08); only the first one dispatched is judged
+        log0 = 0                   # the callback log of the result under judgement starts here
+        wrapper_tau = None
         for i, tok in enumerate(toks):
             c = tok[0]
-            if c in "YQZ":
-                if i and any(t[0] not in "S" for t in toks[:i]):
-                    return None    # a fresh request in the middle: each result is judged on its own sequence
+            if c == "W":
+                wrapper_tau = parse_tau(tok[1:])
+            if c in "YQZK":
+                # a fresh request: its result is judged on its own, and by the statement it expires at ITS OWN issue
+                # instant + timeout, however old the connection or the timed() wrapper is
                 deadline, outcome, registered, arrival_at, first_reply_seen = None, None, [], None, False
-                tau = parse_tau(tok[1:])
+                log0 = len(sim.cblog)
+                tau = wrapper_tau if c == "K" else parse_tau(tok[1:])
                 dl_at_call = sim.clock.now + tau if tau is not None and tau >= 0 else None
             called_at = sim.clock.now
             n_busy = len(sim.busy)
             n_replies = len(sim.reply_times)
-            was_ready = sim.res._is_ready if c not in "YQZ" else False
+            was_ready = sim.res._is_ready if c not in "YQZK" else False
             log_before = list(sim.cblog)
             obs = sim.apply(tok).rsplit("@", 1)[0]
             now = sim.clock.now
@@ -731,7 +931,7 @@ def oracle_sequence(t0, toks):
                 if outcome == ("expired",):
                     outcome = None            # re-armed by the user: judged afresh from here
                 deadline = called_at + tau if tau is not None and tau >= 0 else None
-            if c in "YQZ":
+            if c in "YQZK":
                 deadline = dl_at_call
             if c == "C" and not was_ready:
                 registered.append((int(tok[1:]), called_at))
@@ -775,7 +975,7 @@ def oracle_sequence(t0, toks):
             if outcome == ("expired",):
                 if res._is_ready:
                     return "event %d (%s): a result whose expiry %s had passed became ready" % (i, tok, deadline)
-                if sim.cblog:
+                if sim.cblog[log0:]:
                     return "event %d (%s): a callback ran although the expiry came first" % (i, tok)
                 if c == "r" and obs != "F" or c == "x" and obs != "T" or c == "e" and obs != "F":
                     return "event %d (%s): query on an expired result gave %s" % (i, tok, obs)
@@ -784,7 +984,7 @@ def oracle_sequence(t0, toks):
             if outcome is None:
                 if c == "x" and obs != "F":
                     return "event %d (%s): expired is %s while pending" % (i, tok, obs)
-                if sim.cblog:
+                if sim.cblog[log0:]:
                     return "event %d (%s): a callback ran while pending" % (i, tok)
             # --- timeouts are exact
             if c in "vwY" and obs == "TO":
@@ -883,7 +1083,7 @@ def oracle_search(ctx, corr, broken):
             cands.append((int(parts[0]), parts[1:]))
         except ValueError:
             pass
-    cands += [(0, s) for s in boundary_sequences()]
+    cands += [(0, s) for s in boundary_sequences()] + [(0, s) for s in reuse_sequences()]
     for t0, toks in cands:
         msg = check(t0, toks)
         if msg:
